@@ -15,11 +15,13 @@ CHECKS = {
              'oracle is an independent Fraction model.'),
     'C19': dict(
         level='exploration', design_ref='DESIGN.md 4/C19',
-        technique=PBT + '; exact Fraction oracle, round-trip relations, grammar of malformed strings; exhaustive integers 0..10^6 (thorough)',
+        technique=PBT + '; exact Fraction oracle, round-trip relations, grammar of malformed strings, token-soup differential against a hand-written reading of the documented grammar; exhaustive integers 0..10^6 (thorough)',
         text='Duration strings rendered from generated unit parts in both notations (case, whitespace, '
              'decimal mark) are compared with exact unit arithmetic; timestr/timestr_approx round trips '
              'on integers dense at unit boundaries and decimal fractions; malformed strings from a '
-             'grammar must raise ValueError. Thorough enumerates every integer up to 10^6.',
+             'grammar must raise ValueError; strings glued from the tokens of both notations by mutating a nearly valid '
+             'skeleton must be accepted (with the right value) or rejected exactly as a hand-written recursive-descent '
+             'reading of the documentation says. Thorough enumerates every integer up to 10^6.',
         note='Pure functions, no event loop involved. Tolerance 1e-9 relative for float results.'),
     'C13': dict(
         level='exploration', design_ref='DESIGN.md 4/C13',
@@ -81,7 +83,7 @@ CHECKS = {
         note='NaN excluded; the result of Event.send() is not observable for output events.'),
     'C12': dict(
         level='exploration', design_ref='DESIGN.md 4/C12',
-        technique=PBT + '; history invariants over the log of puts, coroutine starts/ends, result events and output changes on the virtual clock; exhaustive arrival grid (thorough)',
+        technique=PBT + '; history invariants over the log of puts, coroutine starts/ends, result events and output changes on the virtual clock; bursts through InExecutor on a real loop meeting at a threading.Barrier; exhaustive arrival grid (thorough)',
         text='Generated arrival patterns (simultaneous, during a run, during guard time), run durations, failing runs, '
              'stop instant and generous/tight stop_timeout for the three modes; exactly one result event with the '
              'original put data per accepted event, FIFO/non-overlap (wait), single active run, cancellation only by a '
